@@ -321,9 +321,11 @@ class Server:
                 ):
                     raise ServerBacklogFull(len(pipeline), perf_counter() - t0)
 
-            self._input_buffer.put((uid, x))
             pipeline[uid] = fut
-            # See doc of counterpart methods in `AsyncServer`.
+            self._input_buffer.put((uid, x))
+            # Record the request before handing it to the pipeline: a fast worker's
+            # result may reach `_gather_output` (which pops `pipeline` without this lock)
+            # before this thread runs again.
 
         fut.data['t1'] = perf_counter()
         return fut
@@ -572,25 +574,15 @@ class AsyncServer:
                 ):  # should be the first one, but official doc referrs to the second
                     raise ServerBacklogFull(len(pipeline), perf_counter() - t0)
 
-            # We can't accept situation that an entry is placed in `pipeline`
-            # but not in `_input_buffer`, for that entry would be stuck in `pipeline`
-            # and never taken out.
-            #
-            # For that to happen, this function's execution needs to be abandoned after
-            # `pipeline[uid] = fut` but before `self._input_buffer.put((uid, x))`.
-            # Although this doesn't seem likely, I can think of one scenario:
-            #
-            #   User imposes a timeout on the call to `_enqueue`. Then timeout
-            #   (and consequently `asyncio.CancelledError`) could happen anywhere,
-            #   I guess.
-            #
-            # If that is ever an issue or concern, there are two solutions:
-            # (1) put the entry in `_input_buffer` first, and `pipeline` second; in combination,
-            #     change `pipeline.pop(uid)` in `_gather_output` to `pipeline.pop(uid, None)`;
-            # (2) in `call`, protect the calll to `_enqueue` by an `asyncio.shield`.
+            # Record the request in `pipeline` before handing it to `_input_buffer`:
+            # `_gather_output` runs in another thread and pops `pipeline` without this
+            # lock, so a fast worker's result could otherwise arrive before the entry
+            # exists and be dropped. There is no `await` between the two statements,
+            # hence this coroutine can not be cancelled with only one of them done
+            # (`_input_buffer.put` never blocks).
 
-            self._input_buffer.put((uid, x))
             pipeline[uid] = fut
+            self._input_buffer.put((uid, x))
 
         fut.data['t1'] = perf_counter()  # enqueing finished if `t1` != `t0`
         return fut
